@@ -957,9 +957,7 @@ static void DecodeMOV(Word Index) {
         switch (AdrMode) {
         case ModImm:
             ExPos = 4 + 2 * OpSize;
-            DecodeAdr(
-                    Arg2Start, ArgCnt,
-                    MModExt | MModIdx | MModIdx1 | MModIdx2 | MModDIdx | MModIIdx2);
+            DecodeAdr(Arg2Start, ArgCnt, Mask & ~MModImm);
             switch (AdrMode) {
             case ModExt:
                 BAsmCode[1] |= 3;
@@ -978,9 +976,7 @@ static void DecodeMOV(Word Index) {
             break;
         case ModExt:
             ExPos = 6;
-            DecodeAdr(
-                    Arg2Start, ArgCnt,
-                    MModExt | MModIdx | MModIdx1 | MModIdx2 | MModDIdx | MModIIdx2);
+            DecodeAdr(Arg2Start, ArgCnt, Mask & ~MModImm);
             switch (AdrMode) {
             case ModExt:
                 BAsmCode[1] |= 4;
@@ -1004,9 +1000,7 @@ static void DecodeMOV(Word Index) {
         case ModDIdx:
         case ModIIdx2:
             ExPos = 4;
-            DecodeAdr(
-                    Arg2Start, ArgCnt,
-                    MModExt | MModIdx | MModIdx1 | MModIdx2 | MModDIdx | MModIIdx2);
+            DecodeAdr(Arg2Start, ArgCnt, Mask & ~MModImm);
             if (AdrMode != ModNone) {
                 BAsmCode[1] |= (AdrMode == ModExt) ? 5 : 2;
                 memcpy(BAsmCode + 2, HAdrVals, HCnt);
